@@ -98,24 +98,30 @@ def run(ck: Checker):
         cases.append((2, 3))
     probs = []
     n_tab = 0
+    def fold_one(tt, as_rows):
+        it.steps = 0
+        try:
+            info = it.instantiate(NI, ([as_rows(r) for r in tt],))
+            ntt = info._d['truth_table']
+            # normal form: first entry False, rows strictly increasing
+            if any(r[0] for r in ntt) or any(list(a) >= list(b) for a, b in zip(ntt, ntt[1:])):
+                return f'{_s(tt)} ({as_rows.__name__} rows): normal form {_s(ntt)} is not (first entry 0, strictly increasing rows)'
+            c = StubCircuit(it, [f'r{k}' for k in range(len(ntt))])
+            it.getattr(nm, None, info, 'denormalize')(c)
+            got = [c.value(o, [list(r) for r in ntt]) for o in c._outputs]
+            if got != [list(r) for r in tt]:
+                return f'{_s(tt)} ({as_rows.__name__} rows): normalised to {_s(ntt)}, denormalised outputs compute {_s(got)}'
+        except InterpRaise as e:
+            return f'{_s(tt)}: raises {e.exc_name}'
+        return None
+
     for ni, no in cases:
         for tt in tables(ni, no):
-            n_tab += 1
-            it.steps = 0
-            try:
-                info = it.instantiate(NI, ([list(r) for r in tt],))
-                ntt = info._d['truth_table']
-                # normal form: first entry False, rows strictly increasing
-                if any(r[0] for r in ntt) or any(list(a) >= list(b) for a, b in zip(ntt, ntt[1:])):
-                    probs.append(f'{_s(tt)}: normal form {_s(ntt)} is not (first entry 0, strictly increasing rows)')
-                    continue
-                c = StubCircuit(it, [f'r{k}' for k in range(len(ntt))])
-                it.getattr(nm, None, info, 'denormalize')(c)
-                got = [c.value(o, [list(r) for r in ntt]) for o in c._outputs]
-                if got != [list(r) for r in tt]:
-                    probs.append(f'{_s(tt)}: normalised to {_s(ntt)}, denormalised outputs compute {_s(got)}')
-            except InterpRaise as e:
-                probs.append(f'{_s(tt)}: raises {e.exc_name}')
+            for as_rows in ((list, tuple) if (ni == 1 and no >= 2) else (list,)):
+                n_tab += 1
+                msg = fold_one(tt, as_rows)
+                if msg:
+                    probs.append(msg)
             if len(probs) > 5:
                 break
     ck.notes['tables_folded'] = n_tab
